@@ -62,7 +62,7 @@ func main() {
 	tier := flag.String("tier", "quick", "")
 	depth := flag.Int("depth", 0, "history bound of part (C) (default 2 quick / 3 thorough)")
 	volLen := flag.Int("vol-len", 0, "sequence bound of part (B) (default 3 quick / 4 thorough)")
-	systems := flag.String("systems", "MemFS,OrefaFS", "file-system kinds of part (C)")
+	systems := flag.String("systems", "MemFS,OrefaFS,MemFS+tree,OrefaFS+tree,MemFS@D,MemFS@D+tree", "systems of part (C): kind[@D][+tree]")
 	replay := flag.String("replay", "", "re-execute a replay file of part (C) and print what happens")
 
 	var wflag string
